@@ -24,7 +24,7 @@ from re import (
     Pattern,
     search,
 )
-from string import whitespace
+from string import ascii_letters, digits
 from tomllib import loads as loads_toml
 from typing import Any, cast, ClassVar, BinaryIO
 from warnings import warn
@@ -959,10 +959,28 @@ class HandHistory(Iterable[State]):
 
         :return: a ``str`` object.
         """
+        bare_key_characters = set(ascii_letters + digits + '-_')
+        control_characters = set(map(chr, range(32))) - {'\t'} | {'\x7f'}
+
+        def clean_basic_string(value: str) -> str:
+            characters = []
+
+            for character in value:
+                if character in control_characters:
+                    character = f'\\u{ord(character):04x}'
+                elif character in '\\"':
+                    character = '\\' + character
+
+                characters.append(character)
+
+            return '"' + ''.join(characters) + '"'
 
         def clean_key(key: str) -> str:
-            if set(key) & set(whitespace):
-                key = f'\'{key}\''
+            if not key or set(key) - bare_key_characters:
+                if set(key) & control_characters or '\'' in key:
+                    key = clean_basic_string(key)
+                else:
+                    key = f'\'{key}\''
 
             return key
 
@@ -983,12 +1001,15 @@ class HandHistory(Iterable[State]):
                 pairs = map(' = '.join, zip(keys, values))
                 cleaned_value = '{' + ', '.join(pairs) + '}'
             elif isinstance(value, str):
-                if '\'' in value:
-                    delimiter = '\'\'\''
+                if set(value) & control_characters or '\'\'\'' in value:
+                    cleaned_value = clean_basic_string(value)
                 else:
-                    delimiter = '\''
+                    if '\'' in value:
+                        delimiter = '\'\'\''
+                    else:
+                        delimiter = '\''
 
-                cleaned_value = delimiter + value + delimiter
+                    cleaned_value = delimiter + value + delimiter
             else:
                 cleaned_value = repr(value)
 
